@@ -97,6 +97,16 @@ def gen_case(ch, opts):
     case = gmsg.gen_case(ch, many_subsets_opts(opts) if many else opts)
     n = case.nsub
     idx, kind = gen_indices(ch, n)
+    if case.ones_by_sum:
+        # a numeric column that holds the all-ones pattern as minimum + difference: select only rows that hold it, so the
+        # reduced column consists of that one value (the encoder's all-equal path meets the all-ones pattern as a number)
+        fs = case.decoded.subsets[0].fields
+        cols = [k for k, flag in enumerate(case.ones_by_sum) if flag and fs[k].kind == 'num']
+        if cols and ch.bool(2, 3):
+            k = ch.choice(cols)
+            rows = [i for i in range(n) if fs[k].is_missing_raw(case.decoded.raw(i, k))]
+            m = ch.int(1, len(rows))
+            idx, kind = [rows[ch.int(0, len(rows) - 1)] for _ in range(m)], 'rows_with_all_ones_pattern'
     container = ch.weighted([(4, 'list'), (2, 'tuple'), (2, 'set'), (1, 'frozenset')])
     bad = None
     if ch.bool(1, 3):
@@ -133,7 +143,24 @@ def md_of(msg):
     return out
 
 
-def check_selection(out, what, src_msg, sel_expected_values, sel_expected_labels, indices_obj, n_distinct, case_meta, ids, kind='plain'):
+def diff_upto_all_ones(got, exp, fields):
+    """first_value_diff, except that where the reference says missing because the field's bits are all ones the
+    number those bits would otherwise stand for is accepted as well (the statement's "up to FM-94's identification of
+    a field's all-ones pattern with missing": a compressed column can hold that pattern as minimum + difference, which
+    the library reads as the number)"""
+    if fields is None or len(got) != len(exp):
+        return first_value_diff(got, exp)
+    for k, (g, e) in enumerate(zip(got, exp)):
+        if same_value(g, e):
+            continue
+        if e is None and g is not None and fields[k].kind == 'num' and same_value(g, fields[k].ones_value()):
+            continue
+        return (k, g, e)
+    return None
+
+
+def check_selection(out, what, src_msg, sel_expected_values, sel_expected_labels, indices_obj, n_distinct, case_meta, ids, kind='plain',
+                    sel_fields=None):
     """subset -> encode -> decode and compare with the expected value lists"""
     o = sut.call(src_msg.subset, indices_obj)
     if not o.ok:
@@ -156,7 +183,7 @@ def check_selection(out, what, src_msg, sel_expected_values, sel_expected_labels
     for j in range(n_distinct):
         if ob['labels'][j] != sel_expected_labels[j]:
             return out.fail('%s: labels of a selected subset differ' % what, position=j)
-        dff = first_value_diff(ob['values'][j], sel_expected_values[j])
+        dff = diff_upto_all_ones(ob['values'][j], sel_expected_values[j], sel_fields[j] if sel_fields else None)
         if dff is not None:
             return out.fail('%s: the i-th subset of the result is not the i-th smallest selected subset' % what, position=j,
                             index=dff[0], got=dff[1], expected=dff[2])
@@ -192,6 +219,11 @@ def check_case(sc):
     out.classes = ['indices_' + kind, 'container_' + sc.container, 'compressed' if case.compressed else 'uncompressed']
     if n >= 9:
         out.classes.append('nine_or_more_subsets')
+    if case.ones_by_sum:
+        out.classes.append('all_ones_pattern_as_minimum_plus_difference')
+        if any(case.decoded.subsets[0].fields[k].is_missing_raw(case.decoded.raw(i, k))
+               for k, flag in enumerate(case.ones_by_sum) if flag for i in sel):
+            out.classes.append('all_ones_pattern_as_minimum_plus_difference_selected')
     changes = column_status_changes(case, sel)
     if changes:
         out.classes.append('column_becomes_constant')
@@ -209,7 +241,8 @@ def check_case(sc):
         before_bytes = src.serialized_bytes
         exp_vals = [case.values()[i] for i in sel]
         exp_labs = [case.labels()[i] for i in sel]
-        r = check_selection(out, 'selection (%s coder)' % dk, src, exp_vals, exp_labs, sc.collection(), len(sel), case.meta, case.ids, dk)
+        r = check_selection(out, 'selection (%s coder)' % dk, src, exp_vals, exp_labs, sc.collection(), len(sel), case.meta, case.ids, dk,
+                            sel_fields=[case.decoded.fields_of(i) for i in sel])
         # the source message is not modified
         if sut.observe(src) != before or md_of(src) != before_md or src.serialized_bytes != before_bytes:
             out.fail('subset() modified the source message (%s coder)' % dk)
@@ -392,6 +425,7 @@ def gen_opts(tier):
     opts.max_subsets = 5 if tier == 'quick' else 12
     opts.template = gtemplates.Opts(max_ids=14 if tier == 'quick' else 30)
     opts.extra_widths = False
+    opts.ones_by_sum = 'all'      # numeric columns too: missing entries written as minimum + difference = all ones
     return opts
 
 
